@@ -71,8 +71,8 @@ func main() {
 		c.malformed(us, (n+2)/3)
 		c.allocBound(c.accepted("lists", "maps")[:4])
 	case "C06":
-		c.roundTrip(c.accepted("lists", "maps", "scalars", "byvalue", "recursive", "nocopy", "random", "defaults"), n)
-		c.decodeSide(c.accepted("evolution", "nocopy"), n, false)
+		c.roundTrip(c.accepted("lists", "maps", "scalars", "byvalue", "recursive", "nocopy", "ptrbinary", "random", "defaults"), n)
+		c.decodeSide(c.accepted("evolution", "nocopy", "ptrbinary"), n, false)
 		c.spanOps(40 * n)
 	case "C07":
 		c.cacheHistory(60 * n)
@@ -111,8 +111,8 @@ func main() {
 		c.history(c.accepted("leaf", "scalars"), 30)
 		c.resolveAll(true)
 	case "C14":
-		c.roundTrip(c.accepted("nocopy", "random"), 4*n)
-		c.decodeSide(c.accepted("nocopy"), 6*n, false)
+		c.roundTrip(c.accepted("nocopy", "ptrbinary", "random"), 4*n)
+		c.decodeSide(c.accepted("nocopy", "ptrbinary"), 6*n, false)
 	case "C15":
 		c.depthProbe(c.accepted("recursive")[0])
 	case "C16":
